@@ -657,8 +657,8 @@ func biasConfig(r *Rng, c Config, fam string) Config {
 	switch fam {
 	case "footnote", "footuse":
 		c.Footnote = true
-		if r.Chance(1, 2) {
-			c.FootnoteOpt = pick(r, []string{"prefix", "prefixfn", "prefixfn", "titles", "titles", "both"})
+		if r.Chance(3, 4) {
+			c.FootnoteOpt = pick(r, []string{"prefix", "prefixfn", "prefixfn", "prefixfn", "titles", "titles", "both", "both"})
 			if r.Chance(1, 3) {
 				c.OptsVia = "renderer"
 			}
@@ -693,6 +693,11 @@ func biasConfig(r *Rng, c Config, fam string) Config {
 
 func genHerd(r *Rng, c *Corpus, k int) ([][]byte, string) {
 	fam := pick(r, herdFamilies)
+	if r.Chance(1, 4) {
+		// the families whose extension has options of its own: state that depends on an option
+		// AND on the document is where cross-talk between workers has the most room
+		fam = pick(r, []string{"footnote", "footuse", "footnote", "table", "linkify", "typo", "attr", "heading"})
+	}
 	out := make([][]byte, k)
 	for i := range out {
 		if pool := c.ByFamily[fam]; len(pool) > 0 && r.Chance(1, 3) {
